@@ -10,6 +10,7 @@ CONSTANTS
   KindSet = {"good", "dup"}
   KwargsSet = {"none", "empty"}
   UseKeySet = {FALSE}
+  NFiles = 1
   MaxRecs = 1
   Threads = 2
 INVARIANT Inv_C12_Total_NoRaise
